@@ -354,7 +354,92 @@ func (s *sess) send(a, p string) (out string) {
 
 const bogusHash = "bogus-hash-never-issued"
 
+var nearMissMods = map[string]bool{"U": true, "sp": true, "ts": true, "tr": true, "ch": true, "z": true, "fw": true}
+
+// nearMiss builds a string that is almost, but certainly not, v: case flipped, a blank added, one character dropped
+// or changed, ASCII digits replaced by full-width ones. Whatever the modification, the result differs from v.
+func nearMiss(v, mod string) string {
+	out := v
+	switch mod {
+	case "U":
+		out = strings.Map(func(r rune) rune {
+			switch {
+			case r >= 'a' && r <= 'z':
+				return r - 32
+			case r >= 'A' && r <= 'Z':
+				return r + 32
+			}
+			return r
+		}, v)
+	case "sp":
+		out = " " + v
+	case "ts":
+		out = v + " "
+	case "tr":
+		if len(v) > 0 {
+			out = v[:len(v)-1]
+		}
+	case "ch":
+		if len(v) > 0 {
+			c := v[len(v)-1]
+			n := byte('0')
+			if c == '0' {
+				n = '1'
+			}
+			out = v[:len(v)-1] + string(n)
+		}
+	case "z":
+		if len(v) > 0 {
+			out = v[1:] // the leading (zero) digit dropped
+		}
+	case "fw":
+		out = strings.Map(func(r rune) rune {
+			if r >= '0' && r <= '9' {
+				return r - '0' + '０'
+			}
+			return r
+		}, v)
+	}
+	if out == v {
+		out = v + "X"
+	}
+	return out
+}
+
+// splitMod: `<ref>^<mod>`.
+func splitMod(w string) (string, string, bool) {
+	parts := strings.Split(w, "^")
+	if len(parts) != 2 || !nearMissMods[parts[1]] {
+		return "", "", false
+	}
+	return parts[0], parts[1], true
+}
+
 func (s *sess) codeArg(ps *pairState, w string) (string, bool) {
+	if strings.Contains(w, "^") {
+		base, mod, ok := splitMod(w)
+		if !ok {
+			return "", false
+		}
+		v, ok := s.codeArgBase(ps, base)
+		return nearMiss(v, mod), ok
+	}
+	return s.codeArgBase(ps, w)
+}
+
+func (s *sess) hashArg(ps *pairState, w string) (string, bool) {
+	if strings.Contains(w, "^") {
+		base, mod, ok := splitMod(w)
+		if !ok {
+			return "", false
+		}
+		v, ok := s.hashArgBase(ps, base)
+		return nearMiss(v, mod), ok
+	}
+	return s.hashArgBase(ps, w)
+}
+
+func (s *sess) codeArgBase(ps *pairState, w string) (string, bool) {
 	cur := "x"
 	if ps.hasCode {
 		cur = ps.code
@@ -382,7 +467,7 @@ func (s *sess) codeArg(ps *pairState, w string) (string, bool) {
 	return "", false
 }
 
-func (s *sess) hashArg(ps *pairState, w string) (string, bool) {
+func (s *sess) hashArgBase(ps *pairState, w string) (string, bool) {
 	switch {
 	case w == "hx":
 		return bogusHash, true
@@ -747,12 +832,13 @@ func (g *gen) codeArg() string {
 	case x < 93 && g.p.mock:
 		ph := g.anyPair()[1]
 		return "lit:" + mockSpec(tok(ph), r.PickInt(g.p.codeLen, g.p.codeLen, g.p.codeLen+1, 1))
-	case x < 96:
+	case x < 95:
 		return "lit:" // the empty code
-	case x < 98:
+	case x < 96:
 		return "lit:abc"
 	}
-	return "cur"
+	// near misses of the right code: leading digit dropped, full-width digits, blanks, last digit changed or dropped
+	return "cur^" + r.Pick("z", "fw", "ts", "sp", "ch", "tr", "U")
 }
 
 func (g *gen) hashArg() string {
@@ -763,12 +849,13 @@ func (g *gen) hashArg() string {
 		return "hcur"
 	case x < 80 && g.nsend > 0:
 		return "h" + strconv.Itoa(r.Range(1, g.nsend+1))
-	case x < 90:
+	case x < 86:
 		return "hx"
-	case x < 95:
+	case x < 90:
 		return "h-"
 	}
-	return "hcur"
+	// near misses of the returned hash: other letter case, blanks, one character dropped or changed
+	return "hcur^" + r.Pick("U", "U", "U", "sp", "ts", "tr", "ch")
 }
 
 func (g *gen) verifyLine(p [2]string, code, hash string) string {
@@ -975,6 +1062,11 @@ func fixedCases() []corr.Case {
 		{Tag: "fixed-F18", Lines: []string{std, "cover 0123456789", "nonce 0123456789 3 9,19,29", "nonce 0123456789 4 0,8,10,7"}},
 		{Tag: "fixed-F18", Lines: []string{std, "sample 0123456789 6 1000"}},
 		{Tag: "fixed-F18", Lines: []string{std, "nonce a 1 0", "cover a", "nonce _ 1 0", "nonce _ 0 -", "nonce ab -1 1", "cover _"}},
+		{Tag: "fixed-near-miss", Lines: []string{"new cap=100000 mock=0 len=6 maxc=3 maxv=20 ttlx=0 minb=0 winr=0 smsfail=0", "send 1 23", "verify 1 23 cur hcur^U", "verify 1 23 cur hcur^sp", "verify 1 23 cur hcur^ts",
+			"verify 1 23 cur hcur^tr", "verify 1 23 cur hcur^ch", "verify 1 23 cur h1^U", "verify 1 23 cur^z hcur", "verify 1 23 cur^fw hcur", "verify 1 23 cur^ts hcur", "verify 1 23 cur^sp hcur",
+			"verify 1 23 cur^ch hcur", "verify 1 23 cur^tr hcur", "verify 1 23 cur hcur"}},
+		{Tag: "fixed-near-miss", Lines: []string{"new cap=100000 mock=1 len=4 maxc=3 maxv=20 ttlx=0 minb=0 winr=0 smsfail=0", "send 1 23", "verify 1 23 lit:0023 hcur^U", "verify 1 23 cur^z hcur", "verify 1 23 lit:023 hcur",
+			"verify 1 23 lit:23 hcur", "verify 1 23 cur^fw hcur", "verify 1 23 lit:0023 hcur"}},
 		{Tag: "fixed-attempts", Lines: []string{std, "send 1 23", "verify 1 23 wrong hcur", "verify 1 23 wrong hcur", "verify 1 23 wrong hcur", "verify 1 23 cur hcur",
 			"send 1 23", "verify 1 23 cur hcur", "verify 1 23 cur hcur", "verify 1 23 cur hcur", "verify 1 23 cur hcur"}},
 		{Tag: "fixed-attempts", Lines: []string{"new cap=100000 mock=1 len=2 maxc=3 maxv=0 ttlx=0 minb=0 winr=0 smsfail=0", "send 1 23", "verify 1 23 cur hcur"}},
